@@ -856,7 +856,10 @@ def gen_cases(ctx):
     # cases with many contexts each come last: a quick run on a changed tree adds a sample of the first 150 000 cases of
     # the thorough generator, which must stay cheap (the quick tier has these scopes itself)
     heavy = [_gen_groupby_overlap(ctx, r[3]), _gen_groupby_exhaustive(ctx, r[7])]
-    return itertools.chain(_round_robin(cheap), _round_robin(heavy))
+    if quick:
+        return _round_robin(cheap + heavy)
+    cheap_rr = _round_robin(cheap)
+    return itertools.chain(itertools.islice(cheap_rr, 150000), _round_robin([cheap_rr] + heavy))
 
 
 # ---------------------------------------------------------------------------------------------
@@ -1264,6 +1267,8 @@ def _compare(case, res, replies):
         if m["disjoint"]:
             always += ["keyP_eq_model", "keySel_eq_model", "agreeP_iff_key"]
         for k in always:
+            if m.get(k) is None and k in ("groupsOf_eq_model", "skip_eq_model") and len(_contexts(case)) > 64:
+                continue      # evaluated by the driver on flows of at most 64 values
             if m.get(k) is not True:
                 return f"specification-side check {k} is {m.get(k)}"
         G, M = _gm(case)
